@@ -200,7 +200,9 @@ def gen_case(rng, tier, regime=None, force_op=None, poly=None, allvalid=None, nm
         if nd == 3 and rng.random() < 0.3:
             dims = rng.sample(["x", "y", "z"], 3)       # the usual names in an unusual order
     vd, vmap, mclass = gen_labels(rng, nd, nv, dims)
-    per = [a for a in range(nd) if rng.random() < 0.25] if poly is None else []
+    dn = dims or default_dims(nd)
+    # mesh.bc is a string of one-letter dimension names: only those can be periodic
+    per = [a for a in range(nd) if rng.random() < 0.25 and len(dn[a]) == 1] if poly is None else []
     ncell = math.prod(sh)
     if allvalid is None:
         allvalid = rng.random() < 0.55
